@@ -3,6 +3,7 @@ package main
 import (
 	"fmt"
 	"os"
+	"sort"
 	"strings"
 	"time"
 
@@ -74,6 +75,19 @@ func (h *harness) knownReplays() {
 		h.rep.KnownReplay("writeback:line-shape", !oc.OK() || err != nil || still,
 			fmt.Sprintf("file `k: v`, SetValues{k:\"\"} (delete): the file afterwards is %q, k reads %q", string(nb), after["k"]))
 		h.rep.Count("known-replay")
+	}
+	// the defaults as the implementation has them (for the "file gone" clause of the histories)
+	{
+		dir, _ := h.newDir()
+		ce := newCfg(dir)
+		ce.c.ApplyDefault()
+		h.defaults = map[string]string{}
+		for _, k := range ce.c.GetKeys() {
+			h.defaults[k] = ce.c.GetValue(k)
+			h.defaultKeys = append(h.defaultKeys, k)
+		}
+		sort.Strings(h.defaultKeys)
+		ce.c.Destroy()
 	}
 	// the file disappears: the map goes back to the defaults — are the observers told?
 	{
